@@ -21,6 +21,11 @@ EV_BOHR = 27.21  # e^2 in eV*bohr (MOPAC-7 value used by the package)
 A0 = 0.529167
 
 
+def all_finite(*arrays):
+    """NaN/inf gate: comparisons like `x > bound` are False for NaN, so every consumer checks finiteness explicitly"""
+    return all(bool(np.all(np.isfinite(np.asarray(a, float)))) for a in arrays)
+
+
 def ao_offsets(Z):
     """Z: atomic numbers of the real atoms of one molecule (heavy first, then H).
     -> list over atoms of AO index lists in the packed basis, and norb."""
